@@ -439,6 +439,8 @@ def run(ctx, rep):
     from . import tables
     tables.r18d(ctx, rep)
     r18i(ctx, rep)
+    from . import C11
+    C11.r11m(ctx, rep, rule="R18m")
     from . import C03
     C03.r03g(ctx, rep, rule="R18k")
     C03.r03i(ctx, rep, rule="R18l")
